@@ -164,3 +164,83 @@ def mirror_comparisons(tree) -> int:
             c.ops[0] = _MIRROR[type(c.ops[0])]()
             n += 1
     return n
+
+
+# ---------------------------------------------------------------------------------------------------------------- call spelling
+_AMBIGUOUS = {"get", "to_json", "node_names"}      # also methods of dict / pandas objects: the callee is not known by its name
+_FOREIGN = ("np", "pd", "sp", "CVX", "dt", "math", "json", "os")
+
+
+def collect_signatures(trees) -> dict:
+    """name -> parameter list (without self) for every function / method / class (its __init__) of the package whose name has ONE
+    parameter list in the whole package: for those a call site determines its callee's parameters without type information."""
+    sigs, clash = {}, set(_AMBIGUOUS)
+
+    def add(name, fn):
+        a = fn.args
+        if a.vararg or a.posonlyargs:
+            clash.add(name)
+            return
+        params = [x.arg for x in a.args]
+        if params and params[0] in ("self", "cls"):
+            params = params[1:]
+        if name in sigs and sigs[name] != params:
+            clash.add(name)
+        sigs[name] = params
+    for tree in trees:
+        for n in ast.walk(tree):
+            if isinstance(n, ast.ClassDef):
+                for m in n.body:
+                    if isinstance(m, ast.FunctionDef) and m.name == "__init__":
+                        add(n.name, m)
+            if isinstance(n, ast.FunctionDef) and not n.name.startswith("__"):
+                add(n.name, n)
+    for k in clash:
+        sigs.pop(k, None)
+    return sigs
+
+
+SIGS = {}        # signatures of the program loaded last (one program per process at a time)
+
+
+def pos_args(call) -> list:
+    """The arguments of a call in positional order as far as they can be told: the positional ones, followed by the keyword arguments
+    that continue the callee's parameter list without a gap (callee known by collect_signatures)."""
+    out = list(call.args)
+    f = call.func
+    name = f.attr if isinstance(f, ast.Attribute) else (f.id if isinstance(f, ast.Name) else None)
+    params = SIGS.get(name)
+    if params is None or any(isinstance(a, ast.Starred) for a in out):
+        return out
+    kws = {k.arg: k.value for k in call.keywords if k.arg is not None}
+    for q in params[len(out):]:
+        if q not in kws:
+            break
+        out.append(kws[q])
+    return out
+
+
+def keyword_arguments(tree, sigs) -> int:
+    """`f(a, b, k=c)` -> `f(p1=a, p2=b, k=c)` for calls whose callee's parameters are known (collect_signatures): one spelling of a
+    call for all rules - a rule that asks for the grid handed to set_timegrid finds it whether it was passed by position or by name.
+    Evaluation order of the arguments is unchanged (positional arguments come first either way)."""
+    n = 0
+    for c in ast.walk(tree):
+        if not isinstance(c, ast.Call) or not c.args:
+            continue
+        f = c.func
+        name = f.attr if isinstance(f, ast.Attribute) else (f.id if isinstance(f, ast.Name) else None)
+        if isinstance(f, ast.Attribute) and isinstance(f.value, ast.Name) and f.value.id in _FOREIGN:
+            continue
+        params = sigs.get(name)
+        if params is None or any(isinstance(a, ast.Starred) for a in c.args) or len(c.args) > len(params) or any(k.arg is None for k in c.keywords):
+            continue
+        new = []
+        for i, a in enumerate(c.args):
+            kw = ast.keyword(arg=params[i], value=a)
+            ast.copy_location(kw, a)
+            new.append(kw)
+        c.keywords = new + c.keywords
+        c.args = []
+        n += 1
+    return n
